@@ -191,6 +191,26 @@ Theorem C08_rsync_stuck_after_cut_pinned : forall c0 c1 r,
   r_current r = Some c1 /\ r_old r = Some c0 /\ forall c2, rsync_run r (rsync_write_trace_pinned r c2) = None.
 Proof. exact rsync_stuck_after_cut_pinned. Qed.
 
+(** Two stores updated one after the other (publication server: access aggregate and content store): a
+    request cut after any number of steps and submitted again completes iff its first step accepts having
+    been applied already; otherwise the cut between the two stores is final. *)
+Theorem C08_two_store_converges : forall o cut, idem_first o = true ->
+  two_state (two_resubmit o cut) = two_done /\ ((cut <= 1)%nat -> two_resubmit o cut = TOk two_done).
+Proof. exact two_store_converges. Qed.
+
+Theorem C08_two_store_refuted : forall o, idem_first o = false -> two_resubmit o 1 = TRefused (mkTwo true false).
+Proof. exact two_store_refuted. Qed.
+
+Theorem C08_remove_publisher_converges : forall cut,
+  two_state (two_resubmit remove_publisher_op cut) = two_done /\ ((cut <= 1)%nat -> two_resubmit remove_publisher_op cut = TOk two_done).
+Proof. exact remove_publisher_converges. Qed.
+
+Theorem C08_remove_publisher_swapped_stuck : two_resubmit remove_publisher_swapped 1 = TRefused (mkTwo true false).
+Proof. exact remove_publisher_swapped_stuck. Qed.
+
+Theorem C08_create_publisher_cut_between_stores_stuck : two_resubmit create_publisher_op 1 = TRefused (mkTwo true false).
+Proof. exact create_publisher_cut_between_stores_stuck. Qed.
+
 Print Assumptions C08_every_prefix_loads.
 Print Assumptions C08_every_failed_write_loads.
 Print Assumptions C08_history_never_damages_log.
@@ -210,3 +230,8 @@ Print Assumptions C08_rsync_between_renames_heals.
 Print Assumptions C08_rsync_next_write_succeeds_after_any_cut.
 Print Assumptions C08_rsync_write_never_stuck.
 Print Assumptions C08_rsync_stuck_after_cut_pinned.
+Print Assumptions C08_two_store_converges.
+Print Assumptions C08_two_store_refuted.
+Print Assumptions C08_remove_publisher_converges.
+Print Assumptions C08_remove_publisher_swapped_stuck.
+Print Assumptions C08_create_publisher_cut_between_stores_stuck.
